@@ -129,6 +129,9 @@ NUM_ATOMS = {
     "cnt": dict(vars_=["cnt"], fn=_col("cnt")),
     "`col 1`": dict(vars_=["col 1"], fn=_col("col 1"), name="col 1"),
     "x\u00b2": dict(vars_=["x\u00b2"], fn=_col("x\u00b2")),
+    "i8a": dict(vars_=["i8a"], fn=_col("i8a")),
+    "i8b": dict(vars_=["i8b"], fn=_col("i8b")),
+    "u8": dict(vars_=["u8"], fn=_col("u8")),
     "bl": dict(vars_=["bl"], fn=_col("bl")),
     "ni": dict(vars_=["ni"], fn=_col("ni")),
     "nf": dict(vars_=["nf"], fn=_col("nf")),
@@ -288,6 +291,13 @@ def case_frame(fr):
     meta["nf"] = {"kind": "nfloat"}
     df["f32"] = (df["w"].to_numpy() * 3.0).astype("float32")
     meta["f32"] = {"kind": "num"}
+    # narrow integer dtypes whose products do not fit (int8 x int8, uint8 x int16)
+    df["i8a"] = (df["cnt"].to_numpy() * 14 - 50).astype("int8")
+    meta["i8a"] = {"kind": "int"}
+    df["i8b"] = (df["cnt"].to_numpy() * 13 + 20).astype("int8")
+    meta["i8b"] = {"kind": "int"}
+    df["u8"] = (df["cnt"].to_numpy() * 25 + 40).astype("uint8")
+    meta["u8"] = {"kind": "int"}
     # a column name that a Unicode normalisation would rewrite (SUPERSCRIPT TWO -> "x2"); derived, no draws
     df["x\u00b2"] = df["x"].to_numpy() ** 2 + 1.0
     meta["x\u00b2"] = {"kind": "num"}
@@ -394,7 +404,7 @@ def _name(text):
 PROFILES = {
     # what C04 judges: numeric variables / pointwise calls and treatment coded factors
     "plain": dict(
-        num=["x", "z", "w", "cnt", "`col 1`", "x\u00b2", "bl", "ni", "nf", "f32", "ser(x)", "np.power(w, pw)", "np.log(w)", "I(x ** 2)", "{x * 2}", "dbl(x)", "I(x + z)",
+        num=["x", "z", "w", "cnt", "`col 1`", "x\u00b2", "bl", "ni", "nf", "f32", "i8a", "i8b", "u8", "i8a", "i8b", "ser(x)", "np.power(w, pw)", "np.log(w)", "I(x ** 2)", "{x * 2}", "dbl(x)", "I(x + z)",
              "shift1(z, by=w)", "np.log(np.exp(x))", "dbl(shift1(`col 1`, by=cnt))"],
         cat=["s", "h", "o", "cu", "co", "C(k)", "`c:1`", "C(s)", "T(h)", "I(s)", "tag(h)"],
         fac=["g", "g2", "s", "co", "C(k)", "cu"],
